@@ -10,7 +10,8 @@ import TexcraftModel.Model.C20Tags
   `2` begin_group, `3` end_group. After every op every key `0..nkeys-1` is read.
   Reply `M | S | IT | RB`: model trace, spec trace, canonical `iter_all` of the model state after
   `split` ops, trace of the map rebuilt from it under the remaining ops (or `panic`).
-  Trace per op: out code (0/1 insert result, 2 unit, 3 err) then `nkeys` reads (`0` none, `v+1`).
+  Trace per op: out code (0/1 insert result, 2 unit, 3 err) then `nkeys` reads (`0` none, `v+1`),
+  then `len()` and an order-independent code of `iter()`. Op `4 k v` = `extend([(k, v)])`.
 * `gx <depth> <split> <n> <prefix op indices>` exhaustive: every extension of the prefix to
   `depth` ops over the 10-op alphabet (2 keys × 2 values × 2 scopes, begin, end).
   Reply `modelDigest specDigest iterDigest leaves`.
@@ -34,14 +35,21 @@ def mixList (h : UInt64) (l : List Nat) : UInt64 := l.foldl mix h
 abbrev M := GMap Nat Nat
 abbrev S := Snap Nat Nat
 
-def decOp : Cur → Option (Op Nat Nat × Cur)
-  | 0 :: k :: v :: t => some (.insert k.toNat v.toNat .loc, t)
-  | 1 :: k :: v :: t => some (.insert k.toNat v.toNat .glob, t)
-  | 2 :: t => some (.beginGroup, t)
-  | 3 :: t => some (.endGroup, t)
+/-- A history op as the harness issues it: `ext` = the local insert is made through
+`extend([(k, v)])` (groupingmap.rs:345-349: a loop of `insert(.., Scope::Local)`), which returns `()`. -/
+structure DOp where
+  op : Op Nat Nat
+  ext : Bool := false
+
+def decOp : Cur → Option (DOp × Cur)
+  | 0 :: k :: v :: t => some ({ op := .insert k.toNat v.toNat .loc }, t)
+  | 1 :: k :: v :: t => some ({ op := .insert k.toNat v.toNat .glob }, t)
+  | 2 :: t => some ({ op := .beginGroup }, t)
+  | 3 :: t => some ({ op := .endGroup }, t)
+  | 4 :: k :: v :: t => some ({ op := .insert k.toNat v.toNat .loc, ext := true }, t)
   | _ => none
 
-def decOps : Nat → Cur → Option (List (Op Nat Nat))
+def decOps : Nat → Cur → Option (List DOp)
   | 0, [] => some []
   | 0, _ :: _ => none
   | n + 1, c => do
@@ -59,23 +67,36 @@ def encOpt : Option Nat → Nat
   | none => 0
   | some v => v + 1
 
-/-- One op then all reads, on the model. -/
-def mStep (nkeys : Nat) (m : M) (op : Op Nat Nat) : M × List Nat :=
-  let r := m.step op
-  (r.1, outCode r.2 :: (List.range nkeys).map (fun k => encOpt (r.1.get k)))
+/-- `iter()` as an order-independent number. -/
+def pairCode (k v : Nat) : Nat := k * 31 + v + 1
 
-def sStep (nkeys : Nat) (s : S) (op : Op Nat Nat) : S × List Nat :=
-  let r := s.step op
-  (r.1, outCode r.2 :: (List.range nkeys).map (fun k => encOpt (r.1.cur k)))
+/-- One op, then all reads, then `len()` (= number of entries of the backing map) and `iter()`
+(the entries of the backing map), on the model. -/
+def mStep (nkeys : Nat) (m : M) (d : DOp) : M × List Nat :=
+  -- `extend([(k, v)])` goes through `GMap.extend`, everything else through `GMap.step`
+  let r : M × Out Nat := match d.ext, d.op with
+    | true, .insert k v _ => (m.extend [(k, v)], .unit)
+    | _, op => m.step op
+  let len := if r.1.isEmpty == (r.1.len == 0) then r.1.len else 999999
+  (r.1, outCode r.2 :: (List.range nkeys).map (fun k => encOpt (r.1.get k))
+        ++ [len, (r.1.iter.map fun (k, v) => pairCode k v).foldl (· + ·) 0])
 
-def mTrace (nkeys : Nat) : M → List (Op Nat Nat) → M × List Nat
+/-- The same on the specification: `len()` = number of visible keys, `iter()` = the visible pairs
+(every key the history uses is `< nkeys`). -/
+def sStep (nkeys : Nat) (s : S) (d : DOp) : S × List Nat :=
+  let r := s.step d.op
+  let vis := (List.range nkeys).filterMap (fun k => (r.1.cur k).map fun v => pairCode k v)
+  (r.1, (if d.ext then 2 else outCode r.2) :: (List.range nkeys).map (fun k => encOpt (r.1.cur k))
+        ++ [vis.length, vis.foldl (· + ·) 0])
+
+def mTrace (nkeys : Nat) : M → List DOp → M × List Nat
   | m, [] => (m, [])
   | m, op :: ops =>
     let r := mStep nkeys m op
     let rs := mTrace nkeys r.1 ops
     (rs.1, r.2 ++ rs.2)
 
-def sTrace (nkeys : Nat) : S → List (Op Nat Nat) → S × List Nat
+def sTrace (nkeys : Nat) : S → List DOp → S × List Nat
   | s, [] => (s, [])
   | s, op :: ops =>
     let r := sStep nkeys s op
@@ -108,7 +129,7 @@ def showRes (r : Res (List Int)) : String :=
 
 def showNatsD (l : List Nat) : String := if l.isEmpty then "-" else showNats l
 
-def handleGm (nkeys split : Nat) (ops : List (Op Nat Nat)) : String :=
+def handleGm (nkeys split : Nat) (ops : List DOp) : String :=
   let (m, mt) := mTrace nkeys GMap.empty ops
   let _ := m
   let (_, st) := sTrace nkeys Snap.init ops
@@ -125,9 +146,9 @@ def handleGm (nkeys split : Nat) (ops : List (Op Nat Nat)) : String :=
   s!"{showNatsD mt} | {showNatsD st} | {itS} | {rb}"
 
 /-- The 10-letter alphabet of the exhaustive scope. -/
-def alphaOp (i : Nat) : Op Nat Nat :=
-  if i < 8 then .insert (i % 2) ((i / 2) % 2) (if (i / 4) % 2 = 0 then .loc else .glob)
-  else if i = 8 then .beginGroup else .endGroup
+def alphaOp (i : Nat) : DOp :=
+  if i < 8 then { op := .insert (i % 2) ((i / 2) % 2) (if (i / 4) % 2 = 0 then .loc else .glob) }
+  else if i = 8 then { op := .beginGroup } else { op := .endGroup }
 
 structure XAcc where
   dm : UInt64 := seed0      -- model digest over leaves
@@ -159,7 +180,7 @@ def xSplit (split : Nat) (n : XNode) : XNode :=
     | _ => { n with rb := none, rbPanic := true, hrb := mix seed0 999983, hss := seed0 }
   else n
 
-def xStep (split : Nat) (n : XNode) (op : Op Nat Nat) : XNode :=
+def xStep (split : Nat) (n : XNode) (op : DOp) : XNode :=
   let (m', mt) := mStep 2 n.m op
   let (s', st) := sStep 2 n.s op
   let past := n.len ≥ split
